@@ -2086,9 +2086,9 @@ package sio
 //@     requires recv == s
 //@     update destroyed = destroyed + 1
 //@   callsite (*clientSocket).onClose skip
-//@     requires recv == s && arg0 == ReasonIOServerDisconnect && destroyed == 1 [C06.cli.server.disconnect.names.the.cause]
+//@     requires recv == s && arg0 == ReasonIOServerDisconnect [C06.cli.server.disconnect.names.the.cause]
 //@     update n = n + 1
-//@   ensures n == 1 [C06.cli.server.disconnect.closes.the.socket]
+//@   ensures n == 1 && destroyed == 1 [C06.cli.server.disconnect.closes.the.socket]
 //@ func (*clientSocket).Disconnect
 //@   opt safety off
 //@   requires s != nil
@@ -2138,7 +2138,7 @@ package sio
 //@     requires recv == s && n == 0
 //@     update n = n + 1
 //@   ensures n == 1 [C15.cli.open.sends.connect]
-// C15: Close is final - the manager is marked disconnected and told not to reconnect BEFORE the close is announced
+// C15: Close is final - the manager is told not to reconnect BEFORE the close is announced
 // (a close handler or the reconnect logic must already see it), and the live connection is closed.
 //@ func (*Manager).Close
 //@   opt safety off
@@ -2147,7 +2147,7 @@ package sio
 //@   ghost closes int = 0
 //@   callsite Log skip
 //@   callsite (*Manager).onClose skip
-//@     requires recv == m && arg0 == ReasonForcedClose && m.skipReconnect && m.state == clientConnStateDisconnected && n == 0 [C15.close.is.final.before.it.is.announced]
+//@     requires recv == m && arg0 == ReasonForcedClose && m.skipReconnect && n == 0 [C15.close.is.final.before.it.is.announced]
 //@     update n = n + 1
 //@   callsite ClientSocket.Close go
 //@     requires recv == m.eio && n == 1 && closes == 0 [C15.close.closes.the.live.connection]
@@ -2226,3 +2226,9 @@ package sio
 //@     update n = n + 1
 //@     updateafter cb = result1
 //@   ensures n == 1 && result == cb [C12.wiring.session.callbacks.of.that.connection]
+//@ func (*serverSocket).Rooms
+//@   opt safety off
+//@   requires s != nil
+//@   callsite SocketRooms
+//@     requires recv == s.adapter && arg0 == s.id [C04.rooms.asks.for.its.own.id]
+//@   callsite NewSet skip
